@@ -2,6 +2,7 @@ import Proofs.C04
 import Proofs.C04.Part
 import Proofs.C04.Retention
 import Proofs.C04.Learn
+import Proofs.C04.RetNode
 /-!
 # C04 — removed entries stay removed: tombstones block resurrection and are never shown
 
@@ -10,7 +11,9 @@ model of `Model/C06.lean` (one global clock; events: CAS on any node, gossip, de
 in flight to any node at any later time and any number of times, full-state exchange, loss, restart,
 clock tick). Provisos as in `Props/C06.lean`: coherent clash-free universe `U` closed under removal
 (`TombClosed`), CAS functions write timestamps ≥ 1 and not above the clock (`GoodRun`), and the
-tombstone is retained (`cfg.lit = 0`: the retention is not reached during the history).
+tombstone is retained (`cfg.lit = 0`: the retention is not reached during the history) for the cluster
+history theorems; `removal_forwarded_retention`, `learn_hides_retention` and `learn_keeps_while_retained`
+hold for every retention `cfg.lit ≥ 0`.
 Partition ring: entry-level rules and, on top of the partition-ring laws of `Proofs/C03P.lean`,
 descriptor-level theorems (`WF` = unique ids, owner timestamps ≥ 1): deleted partitions / owners block
 older entries, stay deleted along any sequence of merges, and a local update stamps a missing
@@ -47,7 +50,7 @@ theorem removal_forwarded (hU : Univ U) (hT : TombClosed U) {cfg : Cfg} (hcfg : 
     (hlive : t.state ≠ .LEFT) (hmiss : get? out t.id = none) :
     get? (sval (cas cfg clock nowMs nd key f).1.store key) t.id = some (tomb t clock) ∧
     ∃ b ∈ (cas cfg clock nowMs nd key f).1.localQ, b.key = key ∧ get? b.change t.id = some (tomb t clock) :=
-  cas_removal hU hT hcfg hclock nowMs hnd hf hg out hout t ht hlive hmiss
+  cas_removal_any hU hT (by omega) hclock nowMs hnd hf hg out hout t ht hlive hmiss  -- corollary of removal_forwarded_retention
 
 /-- in every reachable state no stored or in-flight entry carries a timestamp above the clock: so
 every message produced before a removal at clock `t` carries timestamps ≤ `t` = the tombstone's -/
@@ -76,7 +79,7 @@ theorem learn_hides (hU : Univ U) {cfg : Cfg} (hcfg : cfg.lit = 0) {clock : Int}
     (he : get? m.val x = some e) (hleft : e.state = .LEFT)
     (hold : ∀ cur, get? (sval nd.store m.key) x = some cur → cur.ts ≤ e.ts) :
     ∀ v, ((notifyMsg cfg now nd m).get m.key).1 = some v → ∀ y ∈ v, y.id ≠ x :=
-  PfC04.learn_hides hU hcfg now hnd hm hk x e he hleft hold
+  PfC04.learn_hides_any hU (by omega) now hnd hm hk x e he hleft hold  -- corollary of learn_hides_retention
 
 /-- **learns ⇒ forwards**: if the tombstone is news to the receiving node (its entry for `x` is strictly older
 in the (timestamp, tombstone) order, or it has none) the node queues a broadcast carrying the tombstone;
@@ -96,6 +99,52 @@ example :
     (deliver {} 10 nd m).gossipQ.map (·.change) = [[{ id := "a", ts := 10, state := .LEFT }]] ∧
     ((deliver {} 10 ({} : Node Desc) m).get "r").1 = some [] ∧
     (deliver {} 10 ({} : Node Desc) m).gossipQ.map (·.change) = [[{ id := "a", ts := 10, state := .LEFT }]] := by decide
+
+/-! ### the same with an ARBITRARY retention (`LeftIngestersTimeout = cfg.lit ≥ 0`), proviso measured on the receiving node's clock
+
+`removal_forwarded` / `learn_hides` above are the `lit = 0` corollaries of these. -/
+
+/-- **removal_forwarded, any retention**: the tombstone created by a local update carries the node's clock, so no retention
+(≥ 1 s) collects it at creation: stored, stamped with the clock and queued for gossip whatever `LeftIngestersTimeout` is -/
+theorem removal_forwarded_retention (hU : Univ U) (hT : TombClosed U) {cfg : Cfg} (hlit : cfg.lit ≥ 0) {clock : Int} (hclock : clock ≥ 1)
+    (nowMs : Int) {nd : Node Desc} {key : String} {f : Option Desc → Option Desc} (hnd : GoodNode U clock nd)
+    (hf : GoodFn U clock f) {c0 : Entry Desc} (hg : getE nd.store key = some c0) (out : Desc)
+    (hout : f (some (removeTombstones none c0.val)) = some out) (t : Inst) (ht : get? c0.val t.id = some t)
+    (hlive : t.state ≠ .LEFT) (hmiss : get? out t.id = none) :
+    get? (sval (cas cfg clock nowMs nd key f).1.store key) t.id = some (tomb t clock) ∧
+    ∃ b ∈ (cas cfg clock nowMs nd key f).1.localQ, b.key = key ∧ get? b.change t.id = some (tomb t clock) :=
+  cas_removal_any hU hT hlit hclock nowMs hnd hf hg out hout t ht hlive hmiss
+
+/-- **learns ⇒ hides, any retention** (no retention proviso needed): whether the receiving node keeps the tombstone or
+collects it at once (older than the retention on its clock), no reader of that node is shown `x` afterwards -/
+theorem learn_hides_retention (hU : Univ U) {cfg : Cfg} (hlit : cfg.lit ≥ 0) {clock : Int} (now : Int) {nd : Node Desc} {m : Msg Desc}
+    (hnd : GoodNode U clock nd) (hm : GoodMsg U clock m) (hk : m.key ≠ "") (x : String) (e : Inst)
+    (he : get? m.val x = some e) (hleft : e.state = .LEFT)
+    (hold : ∀ cur, get? (sval nd.store m.key) x = some cur → cur.ts ≤ e.ts) :
+    ∀ v, ((notifyMsg cfg now nd m).get m.key).1 = some v → ∀ y ∈ v, y.id ≠ x :=
+  PfC04.learn_hides_any hU hlit now hnd hm hk x e he hleft hold
+
+/-- **learns ⇒ keeps while retained**: with retention `lit > 0` a node that receives the tombstone `x@t` stores nothing but
+a tombstone for `x`, and stores the tombstone `x@t` whenever `t` is not older than the retention on the RECEIVING node's
+clock (`t ≥ now + 1 − lit`, i.e. not `t ≤ now − lit`): discarded only once older than the retention -/
+theorem learn_keeps_while_retained (hU : Univ U) {cfg : Cfg} (hlit : cfg.lit > 0) {clock : Int} (now : Int) {nd : Node Desc}
+    {m : Msg Desc} (hnd : GoodNode U clock nd) (hm : GoodMsg U clock m) (x : String) (e : Inst)
+    (he : get? m.val x = some e) (hleft : e.state = .LEFT)
+    (hold : ∀ cur, get? (sval nd.store m.key) x = some cur → cur.ts ≤ e.ts) :
+    (∀ z, get? (sval (deliver cfg now nd m).store m.key) x = some z → z.state = .LEFT) ∧
+    (e.ts ≥ now + 1 - cfg.lit →
+      ∃ z, get? (sval (deliver cfg now nd m).store m.key) x = some z ∧ z.state = .LEFT ∧ z.ts = e.ts) :=
+  (stored_after_tombstone hU hlit now hnd hm x e he hleft hold).2
+
+-- non-vacuity (evaluation), retention 5 s: the tombstone a@10 arrives at clock 12 (retained: kept, hidden) and at clock 100
+-- (older than the retention on the receiver's clock: collected at once, still hidden)
+example :
+    let nd : Node Desc := { store := [("r", { val := [{ id := "a", ts := 9 }, { id := "b", ts := 9 }], version := 1 })] }
+    let m : Msg Desc := { key := "r", val := [{ id := "a", ts := 10, state := .LEFT }] }
+    ((deliver { lit := 5 } 12 nd m).get "r").1 = some [{ id := "b", ts := 9 }] ∧
+    sval (deliver { lit := 5 } 12 nd m).store "r" = [{ id := "a", ts := 10, state := .LEFT }, { id := "b", ts := 9 }] ∧
+    ((deliver { lit := 5 } 100 nd m).get "r").1 = some [{ id := "b", ts := 9 }] ∧
+    sval (deliver { lit := 5 } 100 nd m).store "r" = [{ id := "b", ts := 9 }] := by decide
 
 /-! ### readers and watchers never see a tombstone
 
